@@ -675,9 +675,9 @@ def run(pid, tier, seed, extra=None):
         undecided_funcs = {o.oid.split("/")[0] for o in rep.undecided}
         for con in cons:
             try:
-                if getattr(con, "domain", "graph") == "graph+expr":
+                if getattr(con, "domain", "graph") == "graph+expr" and not hasattr(con, "sample_args"):
                     continue      # records mixing graphs and expressions: the property-level bounded part covers these functions
-                if getattr(con, "domain", "graph") == "expr":
+                if getattr(con, "domain", "graph") in ("expr", "graph+expr"):
                     deep = con.qual in undecided_funcs or con.qual in rep.bounded_only
                     n = (4000 if deep else 150) if tier == "quick" else (40000 if deep else 3000)
                     st = expr_sweep(con, n, seed)
